@@ -419,6 +419,45 @@ Theorem C04_reconstruction_wtilde_eq_mapping : forall m (K : @kernel ROps) c, re
   solve (FRv objs (@F_mapping ROps c objs n s eps) H) (@D_mapping ROps c objs d s).
 Proof. exact reconstruction_wtilde_eq_mapping. Qed.
 
+(* ------------------------------------------------------------------ the model meets the EXECUTABLE specification of the correspondence check *)
+(* [B_spec] / [D_spec] / [F_spec] / [mapped_spec] (Model/C04.v) are what spec_ok evaluates on every implementation output: conv_full
+   (the true 2-D convolution of each column placed on the mask) and plain sums -- no frames, no preload, no blocks.  The property's
+   first sentence, for both classes: B is the column-wise PSF-blurred mapping matrix of all objects in object order, the data vector is
+   B^T N^-1 d and the curvature matrix B^T N^-1 B plus eps exactly on the diagonal entries of the parameters without regularization *)
+Theorem C04_operated_matrix_is_blurred_mapping_matrix : forall m (K : @kernel ROps) c, rectb m = true -> @convolver_init ROps m K = Ok c ->
+  (0 < length (unmasked m))%nat -> forall objs, (forall o, In o objs -> wf_obj c (length (unmasked m)) o) ->
+  op_matrix c objs (length (unmasked m)) = @B_spec ROps m K objs.
+Proof. exact op_matrix_is_B_spec. Qed.
+Theorem C04_data_vector_mapping_meets_spec : forall m (K : @kernel ROps) c, rectb m = true -> @convolver_init ROps m K = Ok c ->
+  (0 < length (unmasked m))%nat -> forall objs, (forall o, In o objs -> wf_obj c (length (unmasked m)) o) ->
+  forall s d : list R, length d = length (unmasked m) -> forall p, (p < tp objs)%nat ->
+  nth p (@D_mapping ROps c objs d s) 0 = nth p (@D_spec ROps (@B_spec ROps m K objs) d s (tp objs)) 0.
+Proof. exact D_mapping_is_D_spec. Qed.
+Theorem C04_curvature_mapping_meets_spec : forall m (K : @kernel ROps) c, rectb m = true -> @convolver_init ROps m K = Ok c ->
+  (0 < length (unmasked m))%nat -> forall objs, (forall o, In o objs -> wf_obj c (length (unmasked m)) o) ->
+  forall (s : list R) (eps : R), (forall i, (i < length (unmasked m))%nat -> nth i s 0 <> 0) ->
+  forall a b, (a < tp objs)%nat -> (b < tp objs)%nat ->
+  mget (@F_mapping ROps c objs (length (unmasked m)) s eps) a b =
+  mget (@F_spec ROps (@B_spec ROps m K objs) s (@unreg_flags ROps objs) eps) a b.
+Proof. exact F_mapping_is_F_spec. Qed.
+Theorem C04_mapped_reconstructed_data_meets_spec : forall m (K : @kernel ROps) c, rectb m = true -> @convolver_init ROps m K = Ok c ->
+  (0 < length (unmasked m))%nat -> forall objs, (forall o, In o objs -> wf_obj c (length (unmasked m)) o) ->
+  forall (r : list R) i, length r = tp objs -> (i < length (unmasked m))%nat ->
+  nth i (@mapped_mapping ROps c objs (length (unmasked m)) r) 0 = nth i (@mapped_spec ROps (@B_spec ROps m K objs) r) 0.
+Proof. exact mapped_mapping_is_mapped_spec. Qed.
+Theorem C04_data_vector_wtilde_meets_spec : forall m (K : @kernel ROps) c, rectb m = true -> @convolver_init ROps m K = Ok c ->
+  forall objs (d s : list R), let n := length (unmasked m) in
+  (0 < n)%nat -> length d = n -> length s = n -> (forall i, (i < n)%nat -> 0 < nth i s 0) -> (forall o, In o objs -> wf_obj c n o) ->
+  forall p, (p < tp objs)%nat ->
+  nth p (@D_wt ROps c m K objs d s) 0 = nth p (@D_spec ROps (@B_spec ROps m K objs) d s (tp objs)) 0.
+Proof. exact D_wt_is_D_spec. Qed.
+Theorem C04_curvature_wtilde_meets_spec : forall m (K : @kernel ROps) c, rectb m = true -> @convolver_init ROps m K = Ok c ->
+  forall objs (s : list R) eps, let n := length (unmasked m) in
+  (0 < n)%nat -> length s = n -> (forall i, (i < n)%nat -> 0 < nth i s 0) -> (forall o, In o objs -> wf_obj c n o) ->
+  forall a b, (a < tp objs)%nat -> (b < tp objs)%nat ->
+  mget (@F_wt ROps c m K objs s eps) a b = mget (@F_spec ROps (@B_spec ROps m K objs) s (@unreg_flags ROps objs) eps) a b.
+Proof. exact F_wt_is_F_spec. Qed.
+
 (* ------------------------------------------------------------------ non-vacuity of the hypothesis sets *)
 (* hypotheses of C04_curvature_is_BT_Ninv_B: a 2x2 signed matrix, two different noise values, one unregularized parameter *)
 Example ex_curv_hyps :
@@ -570,3 +609,9 @@ Print Assumptions C04_inversion_reads_pure.
 Print Assumptions C04_curvature_wtilde_eq_mapping_as_matrices.
 Print Assumptions C04_data_vector_wtilde_eq_mapping_as_vectors.
 Print Assumptions C04_reconstruction_wtilde_eq_mapping.
+Print Assumptions C04_operated_matrix_is_blurred_mapping_matrix.
+Print Assumptions C04_data_vector_mapping_meets_spec.
+Print Assumptions C04_curvature_mapping_meets_spec.
+Print Assumptions C04_mapped_reconstructed_data_meets_spec.
+Print Assumptions C04_data_vector_wtilde_meets_spec.
+Print Assumptions C04_curvature_wtilde_meets_spec.
